@@ -147,6 +147,15 @@ impl Arith {
         let _ = self.0.check(acc, ());
         v
     }
+    /// Reads with one of the crate's tree shapes (0..3 as `read_tree`, 4 = DCT token tree) and
+    /// caller-supplied node probabilities.
+    pub fn read_tree_with_probs(&mut self, which: u8, probs: &[u8]) -> i8 {
+        let mut acc = self.0.start_accumulated_result();
+        let v = crate::vp8::verif_read_tree_with_probs(&mut self.0, which, probs)
+            .or_accumulate(&mut acc);
+        let _ = self.0.check(acc, ());
+        v
+    }
     /// true iff `check` reports an error now (reads went past the end).
     pub fn past_eof(&mut self) -> bool {
         let acc = self.0.start_accumulated_result();
